@@ -130,13 +130,25 @@ pub fn build_flood(rng: &mut Rng) -> Scenario {
     if victim {
         scn.conns.push(ConnScn { calls: vec![CallSpec { kind: Kind::Echo, seq: 1, oneway: false, more: false, payload: "v".into() }], ..Default::default() });
     }
+    // every third case: one more subscriber whose stream has an item ready after (almost) every call that is
+    // served, for as long as the flood lasts (a client that watches every state change)
+    let watcher = if rng.chance(1, 3) {
+        scn.conns.push(ConnScn { calls: vec![CallSpec { kind: Kind::Sub, seq: 1, oneway: false, more: true, payload: String::new() }], ..Default::default() });
+        Some(scn.conns.len() - 1)
+    } else {
+        None
+    };
     let n = scn.conns.len();
     let mut order: Vec<usize> = (0..n).collect();
     rng.shuffle(&mut order);
     let mut steps: Vec<Step> = order.iter().map(|i| Step { ev: Ev::Accept(*i), mode: *rng.pick(&[Mode::Quiesce, Mode::Batch]) }).collect();
     let mut subs: Vec<usize> = (1..=nsub).collect();
     rng.shuffle(&mut subs);
-    for i in &subs {
+    let mut sub_order: Vec<usize> = subs.clone();
+    if let Some(w) = watcher {
+        sub_order.insert(rng.below(sub_order.len() + 1), w);
+    }
+    for i in &sub_order {
         steps.push(Step { ev: Ev::Deliver(*i), mode: Mode::Quiesce });
     }
     // the flood starts; everything below happens while the server is busy with it
@@ -148,7 +160,9 @@ pub fn build_flood(rng: &mut Rng) -> Scenario {
     let mut closed = vec![false; n];
     let mut chunks_left = flood_chunks - 1;
     let mut victim_sent = !victim;
-    for _ in 0..rng.range(10, 60) {
+    let mut watcher_n = 0u32;
+    let busy_steps = if watcher.is_some() { flood_len.saturating_sub(rng.below(20)) } else { rng.range(10, 60) };
+    for _ in 0..busy_steps {
         let ev = match rng.below(8) {
             0 | 1 | 2 => {
                 let b = *rng.pick(&busy);
@@ -172,13 +186,20 @@ pub fn build_flood(rng: &mut Rng) -> Scenario {
             }
             4 if !victim_sent => {
                 victim_sent = true;
-                Ev::Deliver(n - 1)
+                Ev::Deliver(nsub + 1)
             }
             5 if chunks_left > 0 => {
                 chunks_left -= 1;
                 Ev::Deliver(0)
             }
             _ => Ev::Nop,
+        };
+        let ev = match watcher {
+            Some(w) if !rng.chance(1, 12) => {
+                watcher_n += 1;
+                Ev::Multi(vec![Ev::Item { client: w as u32, seq: 1, n: watcher_n - 1, continues: Some(true) }, ev])
+            }
+            _ => ev,
         };
         steps.push(Step { ev, mode: Mode::InHandle });
     }
@@ -187,7 +208,7 @@ pub fn build_flood(rng: &mut Rng) -> Scenario {
         steps.push(Step { ev: Ev::Deliver(0), mode: Mode::InHandle });
     }
     if !victim_sent {
-        steps.push(Step { ev: Ev::Deliver(n - 1), mode: Mode::InHandle });
+        steps.push(Step { ev: Ev::Deliver(nsub + 1), mode: Mode::InHandle });
     }
     steps.push(Step { ev: Ev::Nop, mode: Mode::Quiesce });
     scn.steps = steps;
